@@ -46,6 +46,15 @@ def diff_symptom(diff, objects):
     return ';'.join(sorted(parts))
 
 
+def _only_first_bind_init(diff, objects):
+    by_name = dict((n, o) for n, o in objects)
+    for name, attr, change in diff:
+        o = by_name.get(name)
+        if type(o).__name__ != '_ForgerWrapper' or change != 'replaced' or attr not in ('_transformed', '__wrapped__'):
+            return False
+    return True
+
+
 def run_outcome(fn, names):
     """Like snapshot.outcome but also reports BaseException kinds."""
     try:
@@ -107,6 +116,17 @@ class C16Crash(object):
         res.counters['crossings_excluded'] += inj0.excluded
         res.event('baseline', K, snapshot.freeze(out0))
         d = snap.diff()
+        if d and _only_first_bind_init(d, objects):
+            # the one-shot initialisation _ForgerWrapper.__get__ performs on its first bind: a
+            # change to an object reachable through the class __dict__, made during retrieval.
+            # Reported (known finding D35); it happens once, so the world is re-snapshotted and
+            # everything else is still checked against the state after it.
+            viol('R1-faultfree', diff_symptom(d, objects),
+                 'after fault-free {0}({1}): {2}'.format(entry_name, label, d[:6]))
+            res.counters['probe:first_bind_initialisation_during_retrieval'] += 1
+            snap = snapshot.Snapshot(objects)
+            names = snap.names()
+            d = None
         if d:
             viol('R1-faultfree', diff_symptom(d, objects),
                  'after fault-free {0}({1}): {2}'.format(entry_name, label, d[:6]))
@@ -324,6 +344,32 @@ def _shared(result_sources, operand):
     return None
 
 
+def _map_state(src):
+    """Identity + content view of a provenance map handed around outside a signature."""
+    return (src, dict((k, (v, list(v) if isinstance(v, list) else dict(v))) for k, v in src.items()))
+
+
+def _map_changed(st):
+    src, before = st
+    if set(src) != set(before):
+        return 'keys changed'
+    for k, (v, content) in before.items():
+        if src[k] is not v:
+            return 'entry {0!r} replaced'.format(k)
+        now = list(v) if isinstance(v, list) else dict(v)
+        if len(now) != len(content) or any(a is not b for a, b in zip(now, content)) and isinstance(v, list):
+            return 'entry {0!r} modified'.format(k)
+        if isinstance(v, dict) and now != content:
+            return 'entry {0!r} modified'.format(k)
+    return None
+
+
+class _SrcHolder(object):
+    """Lets _shared() look at a bare provenance map like at a signature's."""
+    def __init__(self, sources):
+        self.sources = sources
+
+
 class _Marker(object):
     def __repr__(self):
         return '<hostile-marker>'
@@ -339,6 +385,8 @@ class C16Hist(object):
         pool = []
         states = []
         trace = []
+        sp_pool = []        # SortedParameters (with sources) kept by the caller and used again
+        sp_states = []
 
         def add(sig, origin):
             pool.append(sig)
@@ -347,11 +395,26 @@ class C16Hist(object):
 
         n0 = 2 + ch.draw(3, 'pool0')
         for _ in range(n0):
+            if ch.chance(1, 3, 'retrieved-seed'):
+                # a signature as retrieval really produces it: several sources, depths > 0
+                import sigtools
+                from props import _c16_funcs
+                i = ch.draw(len(_c16_funcs.FUNCS), 'seed-func')
+                add(sigtools.signature(_c16_funcs.FUNCS[i]), 'signature(FUNCS[{0}])'.format(i))
+                res.counters['pool_seeded_with_retrieved_signature'] += 1
+                continue
             t = ch.pick(SIG_TEXTS, 'sig-text')
             add(support.s(t), 's({0!r})'.format(t))
         res.event('pool0', trace)
 
         def check_pool(step, what):
+            for j, st in enumerate(sp_states):
+                c = _map_changed(st)
+                if c:
+                    res.violations.append(Violation(
+                        PROP, 'I1', 'algebra', what.split('(')[0] + ': provenance map passed as sources= argument modified',
+                        detail='step {0} {1}: SortedParameters #{2}.sources {3}'.format(step, what, j, c)))
+                    return False
             for i, (sig, st) in enumerate(zip(pool, states)):
                 c = _sig_changed(sig, st)
                 if c:
@@ -366,6 +429,7 @@ class C16Hist(object):
             opname = ch.pick(['merge', 'embed', 'mask', 'forwards', 'sort_params', 'apply_params',
                               'apply_params+sources'], 'op')
             pick = lambda: ch.draw(len(pool), 'operand')     # noqa
+            used_sp = None
             if opname == 'merge':
                 idx = [pick() for _ in range(1 + ch.draw(3, 'n-operands'))]
                 fn = lambda: signatures.merge(*[pool[i] for i in idx])   # noqa
@@ -408,6 +472,13 @@ class C16Hist(object):
                 idx = [pick()]
                 fn = lambda: signatures.apply_params(pool[idx[0]], *signatures.sort_params(pool[idx[0]]))  # noqa
                 what = 'apply_params({0}, *sort_params(..))'.format(idx)
+            elif sp_pool and ch.chance(1, 2, 'reuse-sorted-parameters'):
+                # the caller kept a SortedParameters (with its sources map) and applies it again
+                idx = [pick()]
+                j = ch.draw(len(sp_pool), 'kept-sorted-parameters')
+                fn = lambda: signatures.apply_params(pool[idx[0]], *sp_pool[j])       # noqa
+                what = 'apply_params({0}, *kept#{1})'.format(idx[0], j)
+                used_sp = j
             else:
                 idx = [pick(), pick()]
                 fn = lambda: signatures.apply_params(                                   # noqa
@@ -472,6 +543,17 @@ class C16Hist(object):
                             detail='step {0} {1}: result shares its {2} with pool[{3}] ({4})'.format(
                                 step, what, sh, i, trace[i])))
                         return res
+            if opname == 'sort_params' and hasattr(r, 'sources') and len(sp_pool) < 3:
+                sp_pool.append(r)
+                sp_states.append(_map_state(r.sources))
+            if used_sp is not None and rsrc is not None:
+                sh = _shared(rsrc, _SrcHolder(sp_pool[used_sp].sources))
+                if sh:
+                    res.violations.append(Violation(
+                        PROP, 'I2', 'algebra', 'apply_params: result shares {0} with its sources= argument'.format(sh),
+                        detail='step {0} {1}: result shares its {2} with the SortedParameters it was given'.format(
+                            step, what, sh)))
+                    return res
             consumed_earlier = any(i >= n0 for i in idx)
             res.key(opname, tuple(sorted(set(str(pool[i]) for i in idx))), nontrivial=consumed_earlier or len(idx) > 1)
             if isinstance(r, inspect.Signature):
